@@ -101,8 +101,8 @@ def quiet():
         sys.stderr, sys.stdout = old_err, old_out
 
 
-def run_op(spec, heap, rng_seed=None, cb=None, fault_ctx=None):
-    """Execute one template.  Returns (outcome, raw exception or None)."""
+def run_op(spec, heap, rng_seed=None, cb=None, fault_ctx=None, keep=None):
+    """Execute one template and return its canonical outcome; the raw value is appended to ``keep``."""
     import warnings
 
     import matplotlib.pyplot as plt
@@ -138,6 +138,8 @@ def run_op(spec, heap, rng_seed=None, cb=None, fault_ctx=None):
         try:
             with warnings.catch_warnings(), quiet():
                 warnings.simplefilter("ignore")
+                if keep is not None:
+                    keep.append(val)
                 if spec.post is not None:
                     val = spec.post(val)
                 out[1] = canon(val)
@@ -266,7 +268,7 @@ def generate(seed, tier, index=0):
 # execution
 # ---------------------------------------------------------------------------------------------
 def execute(trace, ctx=None):
-    from .canon import close
+    from .canon import close, snap
 
     ops = _cat().OPS
     table = (ctx or {}).get("pristine", {})
@@ -278,6 +280,7 @@ def execute(trace, ctx=None):
     diag_defaults, diag_globals = set(), set()
     violation = None
     done = []
+    retained = []
     fns0, globs0 = state_snapshot()
 
     for step, op in enumerate(trace["ops"]):
@@ -289,6 +292,11 @@ def execute(trace, ctx=None):
         ref = table.get(key)
         if ref is None:
             raise HarnessError("no pristine outcome for %r in the context table" % key)
+        if ref.get("unstable"):
+            violation = {"oracle": "not_reproducible", "op": name, "step": step,
+                         "detail": "%s executed alone in two pristine processes%s gave different results: %s" % (
+                             key, " with the same NumPy seed" if spec.rand else "", ref["unstable"])}
+            break
         fault = op.get("fault")
         cb, fctx, fc, tracer, rc = None, None, None, None, None
         fired = False
@@ -312,7 +320,8 @@ def execute(trace, ctx=None):
         ff_before = CTL.fork_fail_fired
         if spec.cb is not None and cb is None:
             cb = spec.cb
-        out = run_op(spec, heap, op.get("rng_seed"), cb=cb, fault_ctx=fctx)
+        raw = []
+        out = run_op(spec, heap, op.get("rng_seed"), cb=cb, fault_ctx=fctx, keep=raw)
         CTL.fork_fail_at = None
         if fault:
             kind = fault["kind"]
@@ -360,6 +369,18 @@ def execute(trace, ctx=None):
                                  "detail": "%s after %r differs from its pristine execution at %s" % (key, done[:-1][-4:], d)}
         elif out[0] == "value" or out[0] == "raise":
             pass  # a fired fault that the call absorbed: its own outcome is not judged
+        # oracle 3: a value returned earlier is the caller's from then on; a later call must not change it
+        if violation is None:
+            for (pstep, pkey, pval, psnap) in retained:
+                if snap(pval) != psnap:
+                    violation = {"oracle": "earlier_result_changed", "op": name, "step": step,
+                                 "detail": "the value returned by %s at step %d changed while %s ran: %s" % (
+                                     pkey, pstep, key, close(psnap, snap(pval)) or "snapshots differ")}
+                    break
+        if violation is None and raw and _retainable(raw[0]):
+            retained.append((step, key, raw[0], snap(raw[0])))
+            if len(retained) > 6:
+                retained.pop(0)
         # diagnostics (never violations by themselves)
         fns1, globs1 = state_snapshot()
         for k2 in fns1:
@@ -387,6 +408,20 @@ def execute(trace, ctx=None):
         "nontrivial": len(done) >= 2,
         "sched_decisions": CTL.decisions[:200],
     }
+
+
+def _retainable(v, depth=0):
+    """Plain data only (arrays, tables, containers of scalars); iterators and figures are not retained."""
+    import numpy as np
+    import pandas as pd
+
+    if isinstance(v, (np.ndarray, pd.DataFrame, pd.Series)):
+        return v.size < 20000
+    if isinstance(v, (list, tuple)):
+        return depth < 3 and len(v) < 5000 and all(_retainable(x, depth + 1) for x in v[:50])
+    if isinstance(v, dict):
+        return depth < 3 and all(_retainable(x, depth + 1) for x in list(v.values())[:50])
+    return isinstance(v, (str, int, float, bool, type(None), np.generic))
 
 
 def _brief(out):
@@ -451,7 +486,9 @@ def build_table(farm, keys, harness_errors):
             elif a[0] == "value":
                 d = close(a[1], b[1])
             if d:
-                harness_errors.append({"error": "op %s is not reproducible between two pristine processes (catalogue defect): %s" % (key, d)})
+                # the same call, alone in two pristine processes (same seeds), gave different results: that is the
+                # property's last clause failing by itself; reported through execute() so that it is replayable
+                table[key] = dict(rs[0], unstable=d)
                 continue
         table[key] = rs[0]
     return table
